@@ -48,6 +48,8 @@ type Solver struct {
 	fastMs   int
 	OneShot  int
 	OneShotSec float64
+	Restarts int
+	resendBase bool
 	isHelper bool
 }
 
@@ -118,6 +120,13 @@ func (s *Solver) Push() {
 }
 
 func (s *Solver) flush() {
+	if s.resendBase {
+		s.resendBase = false
+		for _, t := range s.asserted[0] {
+			s.ensure(t)
+			s.send(fmt.Sprintf("(assert %s)", ref(t)))
+		}
+	}
 	for s.sent < s.level {
 		s.sent++
 		s.send("(push 1)")
@@ -222,10 +231,35 @@ func (s *Solver) readLine() (string, error) {
 // limit, then (if that is inconclusive) as a one-shot query in a fresh solver context.
 func (s *Solver) Check() (SatResult, Model) {
 	r, m := s.checkInc()
-	if r != Unknown || s.isHelper || s.dead {
+	if r != Unknown || s.isHelper {
 		return r, m
 	}
+	// z3 4.8.12 can answer the commands that follow a timed-out incremental check with
+	// "(error ... canceled)": restart the incremental process; the assertion stack is
+	// re-sent lazily from s.asserted
+	s.restart()
 	return s.checkOneShot()
+}
+
+func (s *Solver) restart() {
+	if s.cmd != nil {
+		s.in.Close()
+		s.cmd.Process.Kill()
+		s.cmd.Wait()
+	}
+	n, err := NewSolver(s.name, s.store, s.timeout)
+	if err != nil {
+		s.dead = true
+		return
+	}
+	s.cmd, s.in, s.out = n.cmd, n.in, n.out
+	s.sent = 0
+	s.defined = map[int32]int{}
+	s.byLevel = [][]int32{nil}
+	s.dead = false
+	s.Restarts++
+	// level-0 assertions are re-sent by flush as well
+	s.resendBase = true
 }
 
 func (s *Solver) checkOneShot() (SatResult, Model) {
